@@ -54,7 +54,7 @@ func (c09) Describe() sim.Description {
 		RealCode:    []string{"everything: both engines, finalizer-based unmapping, store/table liveness links, compilation cache"},
 		Stubs:       []string{"none (the collector and finalizers are the real ones, triggered by the simulator)"},
 		Assumptions: []string{"debug.SetGCPercent(-1): collection happens only at runtime.GC() calls the tape places", "finalizers are drained with a sentinel finalizer before proceeding"},
-		FaultKinds:  []string{"close_instance", "close_compiled", "close_cache", "drop_host_references", "forced_gc", "call_in_progress_during_close"},
+		FaultKinds:  []string{"close_instance", "close_compiled", "close_cache", "drop_host_references", "forced_gc", "heap_refill_after_gc", "call_in_progress_during_close", "failed_instantiation_leaving_a_function_in_a_table", "custom allocator whose Free poisons the memory"},
 	}
 }
 
